@@ -11,8 +11,12 @@ Local Open Scope Z_scope.
    database templates: for every instruction of the covered encoding classes and every supported database row of that instruction, the
    table word and the row's fixed bits are equal on all fixed-bit positions except the ones the encoding class ORs in itself (sf, Q,
    size, scalar, ...; listed per class in tools/c02_tables.py).
-   PARTIAL: enc_table_count instructions of the classes that keep one opcode word per instruction; the classes with several opcode
-   variants per row (ADD/SUB, logical, load/store, FP, ...) are tied to the database by the differential run only. *)
+   Classes with several opcode constants per row (ADD/SUB, CMP/CMN, TST, logical, shifts, MIN/MAX, LDR/STR, LDP/STP, LDUR-like, FP scalar/
+   vector/by-element, integer by-element, SIMD shifts, SIMD load/store) contribute one entry per variant; the variant is compared with the
+   database rows whose operand syntaxes select it (row_filter in tools/c02_tables.py mirrors the case split of the encoder).
+   PARTIAL: enc_table_count entries for 639 of the 774 instructions; not covered: instructions without a supported database row and the
+   classes MOV/MRS/MSR/SYS pseudo encoders (constants live in the code, not in tables), FMOV/FCVT/FCM*/DOT/FMLAL/DUP/INS/UMOV/MOVI/TBL/LDn
+   multi-table classes (listed in the evidence as classes_not_covered / not dumped). *)
 Theorem C02_tables_agree_db_partial : forall id w var rids rid, In (id, w, var, rids) enc_table -> In rid rids ->
   exists r, In r rows /\ r_id r = rid /\ tword_agrees (r_tmpl r) w var = true.
 Proof.
